@@ -1,4 +1,4 @@
-import Qv.Proofs.HeapHist
+import Qv.Proofs.HeapCapture
 /-!
 # Qv.Proofs.HeapKinds — the info round trip re-creates every recorded constraint as a polynomial of the model's own
 kind (`PUBO` in a boolean, `PUSO` in a spin model), each a fresh object without constraints of its own
